@@ -138,6 +138,9 @@ def run(chk: Check) -> None:
     rets_ = [r for r in ast.walk(gsc.node) if isinstance(r, ast.Return)]
     chk.ob('DOM-barrier-wait', gsc, len(rets_) == 1 and norm(rets_[0].value) == 'states_map', 'the modified map is what is returned', kind='map-returned')
 
+    # the work chain's WAITING state is only in effect if the work chain class builds its OWN state table
+    from .common import state_tables_built_per_class
+    state_tables_built_per_class(chk, 'DOM-barrier-wait')
     # 2. barrier guard in _awaitable_done
     ad = prog.func('workchains.Waiting._awaitable_done')
     acfg = cfg_of(ad)
@@ -157,6 +160,10 @@ def run(chk: Check) -> None:
     ok = bool(reads) and acfg.must_pass(acfg.entry, [acfg.exit], lambda m: m in reads, edge_ok=no_exc)
     chk.ob('DOM-barrier-guard', ad, ok, 'no completion is ignored: every normal path through the done-callback reads the awaitable\'s outcome (a result skipped because "the wait is already decided" '
            '-- it is also "decided" while a pause interruption sits in the future -- never reaches the context)', kind='outcome-always-read')
+    from .common import context_assignment_is_any_dict
+    context_assignment_is_any_dict(chk, 'DOM-barrier-wait')
+    from .common import barrier_opens_when_empty
+    barrier_opens_when_empty(chk, 'DOM-barrier-guard')
     from .common import cancellation_delivered
     cancellation_delivered(chk, 'DOM-barrier-guard', 'workchains.Waiting._awaitable_done', WFK, 'the completion of an awaited item (a cancelled item is a failed one)')
     fails = [n for n in acfg.nodes if any(last_name(c) == 'set_exception' and af.canon.key(c.func.value) == WFK for c in _calls(n))]
